@@ -21,6 +21,8 @@ class TreeBanditMonitor(Monitor):
     def start(self, ctx):
         c = ctx.case
         self.tm = TreeMon(c["algo"], ctx.algo, tree_params(c["algo"], c["params"], c["n"]), self, ctx.hub)
+        self.tm.stride = int(c.get("monitor_stride", 1))
+        self.tm.last_round = c["T"]
 
     def on_pull(self, ctx, t, p):
         self.tm.on_pull(p)
